@@ -1148,7 +1148,20 @@ def k14(ctx):
         return bs[0]
     # ---- lift_sem_congruence
     b = meth("lift_sem_congruence")
-    eqs = _aggs(b, "proof::Equation")
+    subs_ = [x for x in b.all_bodies() if x is not b]
+
+    def aggs_all(suffix):
+        """aggregates of b and of the closures created in it (a child loop written as `(0..n).map(|i| ..).collect()`), captured
+        variables resolved to the parent's roles and parameters numbered as the parent's"""
+        out = list(_aggs(b, suffix))
+        for sub in subs_:
+            for bi_, si_, s_ in sub.statements():
+                rv_ = s_["rv"] if s_["k"] == "assign" else None
+                if rv_ and rv_["k"] == "agg" and str(rv_.get("adt", "")).endswith(suffix) and not sub.blocks[bi_]["cleanup"]:
+                    f_ = rv_.get("fields") or [str(i) for i in range(len(rv_["ops"]))]
+                    out.append((b.line and 0, {n_: _nrm(b, sub.role_of_operand(rv_["ops"][i])) for i, n_ in enumerate(f_)}))
+        return out
+    eqs = aggs_all("proof::Equation")
     goals = [(bi, f) for bi, f in eqs if "applied_id_occurrences(" in f.get("l", "")]
     finals = [(bi, f) for bi, f in eqs if (f.get("l"), f.get("r")) == ("p2", "p3")]
     ctx.check(bool(finals), "lift:final-goal", "the kernel is asked for the equation (l, r) in order", "lift_sem_congruence asks the congruence kernel for %s" % [(f.get("l"), f.get("r")) for _, f in eqs if "applied_id_occurrences(" not in f.get("l", "")], where_of(b))
@@ -1159,15 +1172,30 @@ def k14(ctx):
         ok = bool(ml and mr) and (ml.group(1), mr.group(1)) == ("p2", "p3") and ml.group(2) == mr.group(2)
         ctx.check(ok, "lift:child-goal", "child goal i = (left node's i-th child, right node's i-th child)",
                   "lift_sem_congruence builds a child goal from (%s, %s): its left side must be the i-th child of the LEFT term's node and its right side the child of the RIGHT term's node at the same position" % (f["l"][:90], f["r"][:90]), where_of(b, bi))
-    an = [c for c in b.calls if c.callee and c.callee.name == "associate_necessaries" and not b.blocks[c.bb]["cleanup"]]
+    an = [(x, c) for x in [b] + subs_ for c in x.calls if c.callee and c.callee.name == "associate_necessaries" and not x.blocks[c.bb]["cleanup"]]
     ctx.floor("re-association calls in lift_sem_congruence", len(an), 1)
-    for c in an:
-        a1 = _nrm(b, b.role_of_operand(c.args[1]))
-        a2 = _nrm(b, b.role_of_operand(c.args[2]))
+    for x, c in an:
+        a1 = _nrm(b, x.role_of_operand(c.args[1]))
+        a2 = _nrm(b, x.role_of_operand(c.args[2]))
+        # (the child proof is child_proofs[<the position the goal was built for>])
+        idx_goal = re.findall(r"index\(applied_id_occurrences\(alpha_normalize\(get_syn_node\(self, p2\)\)\), (.*?)\), l?r?", a1)
         ctx.check(a1.startswith("Equation{") and a2.startswith("p4"), "lift:reassociate-child", "each child proof is re-associated towards its own child goal",
-                  "lift_sem_congruence re-associates %s towards %s" % (a2[:60], a1[:60]), where_of(b, c.bb))
+                  "lift_sem_congruence re-associates %s towards %s" % (a2[:60], a1[:60]), where_of(x, c.bb))
     lps = C.iterator_loops(b)
-    ctx.check(bool(lps) and all(C.loop_exhaustive(b, l) for l in lps), "lift:all-children", "every child is lifted", "the child loop of lift_sem_congruence can stop early", where_of(b))
+    if lps:
+        ctx.check(all(C.loop_exhaustive(b, l) for l in lps), "lift:all-children", "every child is lifted", "the child loop of lift_sem_congruence can stop early", where_of(b))
+    else:
+        # adaptor form: (0..child_proofs.len()).map(|i| ..).collect() — nothing between the range and the collect but the map
+        okm = False
+        for c in b.calls:
+            if c.callee and c.callee.name == "collect" and not b.blocks[c.bb]["cleanup"]:
+                r_ = strip_role(b.role_of_operand(c.args[0]))
+                if isinstance(r_, tuple) and r_[0] == "call" and r_[1] == "map" and len(r_[3]) == 2:
+                    src_ = _nrm(b, r_[3][0])
+                    cl_ = C._closure_of_role(crate, r_[3][1])
+                    okm = okm or (re.match(r"^Range\{const, len\(p4\)\}$", src_) is not None and hasattr(cl_, "calls") and any(c2.callee and c2.callee.name == "associate_necessaries" for c2 in cl_.calls)
+                                  and str(strip_role(strip_role(r_[3][0])[2][0])[1]).split("_")[0] == "0")
+        ctx.check(okm, "lift:all-children", "every child is lifted (0..len(child proofs) mapped and collected)", "lift_sem_congruence does not lift every child: the traversal of the child proofs is not the full range 0..len", where_of(b))
     ret = _nrm(b, b.role_of_local(0))
     ctx.check(ret.startswith("disassociate_proven_eq(self, check(CongruenceProof{"), "lift:result", "the result is the dis-associated answer of the congruence kernel", "lift_sem_congruence returns %s" % ret[:100], where_of(b))
     # ---- associate_necessaries
